@@ -1,5 +1,6 @@
 # configuration of ./check C11 (see checklib/props.py)
-PROP = {'level': 'proof',
+PROP = {'race': True,
+ 'level': 'proof',
  'rule': 'Every password length 0..260 x contents x salts (high bit set/clear, wrong lengths) x secrets x authenticators through NewTunnelPassword '
          'and the round trip; every attribute length 0..300 and genuine encodings with a corrupted embedded length through TunnelPassword.',
  'level_text': 'Lean theorems for an arbitrary 16-byte hash: NewTunnelPassword equals the RFC 2868 s3.5 encoding, the result plus a tag byte fits in '
